@@ -24,7 +24,7 @@ type FOp struct {
 	Key    int         `json:"key,omitempty"`
 	Val    model.Bytes `json:"val,omitempty"`
 	TS     uint64      `json:"ts,omitempty"`
-	XFlag  byte        `json:"xflag,omitempty"` // native: application-local header flag bits
+	XFlag  byte        `json:"xflag,omitempty"`   // native: application-local header flag bits
 	IntKey bool        `json:"int_key,omitempty"` // put/del: in the integer-key DBI instead
 	Blob   int         `json:"blob,omitempty"`    // index into the blobs stored so far (mod count)
 	From   int         `json:"from,omitempty"`    // merge: if > 0, the newest blob of instance From-1 instead
